@@ -49,6 +49,10 @@ TITLES = {
     "C17-r3": "`print mem a -> b` breaks rows by address instead of by count",
     "C18-r3": "AH=0Ah compares `input.len() as u8` with the capacity: lines of 256 bytes or more wrap",
     "C19-r3": "VM::default() builds an all-zero machine; new() starts from it",
+    "C01-r4": "byte ADC takes carry-out from `op1.overflowing_add(op2)` only: op1+op2 = FFh with CF=1 loses the carry",
+    "C02-r4": "word TEST computes SF as `res > 8000h`: a result of exactly 8000h clears SF",
+    "C03-r4": "DAS makes its high-digit test on the AL it was entered with instead of the adjusted AL",
+    "C07-r4": "CMPS/SCAS compute OF as `|src - dest| > MAX`: a difference of exactly -128 / -32768 sets OF",
     "C20-r3": "stepping condition tests `out.code[idx] != \"hlt\"`: a hlt written by the user gets no prompt",
 }
 rows = []
